@@ -307,6 +307,64 @@ func c11Wrapper(c *Ctx, r *Report, caller, target *ssa.Function) {
 	fr.run(dnfTrue())
 	if !found {
 		r.undecided("R11.4", id, "call to "+target.Name()+" not found at depth 0", c.pos(caller.Pos()))
+		return
+	}
+	// the wrapper answers with the target's answer: a return that does not forward the call's
+	// results must be unreachable for an address inside the reply (start <= address < start+8*len)
+	an2 := &Analysis{ctx: c, u: newUniverse(), top: caller, logCalls: true, noInline: func(f *ssa.Function) bool { return f == target }}
+	fr2 := an2.newFrame(caller, nil, nil)
+	fr2.run(dnfTrue())
+	var tc *CallRec
+	for _, cr := range an2.calls {
+		if cr.frame == fr2 && cr.callee == target {
+			tc = cr
+		}
+	}
+	ps := caller.Params
+	if tc == nil || len(ps) != 3 {
+		return
+	}
+	res, _ := tc.res.(ATuple)
+	p1, ok1 := fr2.vals[ps[1]].(AInt)
+	p2, ok2 := fr2.vals[ps[2]].(AInt)
+	var plen Aff
+	havePayload := false
+	if s, isS := tc.args[0].(ASlice); isS {
+		plen, havePayload = s.root.ln, true
+	}
+	for _, rs := range fr2.returns {
+		if len(rs.state) == 0 {
+			continue
+		}
+		r.instance("R11.4", 1)
+		pos := c.pos(rs.instr.Pos())
+		fwd := len(res) == len(rs.vals)
+		for i := range rs.vals {
+			if fwd && describeAV(rs.vals[i]) != describeAV(res[i]) {
+				fwd = false
+			}
+		}
+		if fwd {
+			r.ok("R11.4", id, "returns "+target.Name()+"'s results unchanged", pos, true)
+			continue
+		}
+		if !havePayload || !ok1 || !ok2 {
+			// alias of a wrapper (receiver passed on whole): any own return is a deviation
+			r.fail("R11.4", id, "has a return that does not forward "+target.Name()+"'s answer", pos, describeAV(ATuple(rs.vals)), "own-return")
+			continue
+		}
+		inRange := Conj{atomGE(p2.a, p1.a), atomLT(p2.a.sub(p1.a), plen.scale(8))}
+		feas := false
+		for _, cj := range rs.state {
+			if !infeasible(cj.with(inRange...)) {
+				feas = true
+			}
+		}
+		if feas {
+			r.fail("R11.4", id, "answers on its own, without "+target.Name()+", for an address that lies inside the reply", pos, truncate(rs.state.String(), 300), "own-return-in-range")
+		} else {
+			r.ok("R11.4", id, "a return that does not forward "+target.Name()+"'s answer is unreachable for addresses inside the reply", pos, true)
+		}
 	}
 }
 
